@@ -70,7 +70,7 @@ def opC09 (a : Args) : Except String String := do
     let g1 : Array Rat ← vals a "g1"
     let g0 : Array Rat ← vals a "g0"
     let Q := qFun q1 q0
-    pure (showPairs [both "diff" (fun l => aipwDiff l Q (look g1) (look g0)),
+    pure (showPairs [both "diff" (fun l => aipwDiffW l Q (look g1) (look g0)),
                      both "am1" (fun l => aipwArmMean true l Q (look g1) (look g0)),
                      both "am0" (fun l => aipwArmMean false l Q (look g1) (look g0)),
                      both "y1" (fun l => aipw1 l Q (look g1) (look g0)),
